@@ -6,6 +6,7 @@ shadow integer is a bounded concretisation fork.  See DESIGN.md section 2.
 """
 import math
 import numbers
+import os
 import time
 from fractions import Fraction
 
@@ -376,7 +377,7 @@ class Ctx:
         # (fewer premises: an unsat answer carries over to the full path condition; anything else falls through)
         vs = free_consts(bad_s)
         sel = [p for p in self.pc if free_consts(p) <= vs]
-        if len(sel) < len(self.pc) + len(self.axioms):
+        if len(sel) < len(self.pc) + len(self.axioms) and not os.environ.get('PBSYM_NO_ISOLATE'):
             names = {str(v) for v in vs}
             s2 = z3.Solver()
             s2.set("timeout", min(self.query_timeout_ms, 10000))
